@@ -6,6 +6,8 @@ def stages(tier):
          "timeout": 300, "timeout_thorough": 1800},
         {"name": "concurrent", "cmd": "cacheconc", "args": [], "check": "self-describing bodies under real concurrency + forced same-key store overlap (direct)",
          "timeout": 300, "timeout_thorough": 1200},
+        {"name": "e2e", "cmd": "e2e01", "args": [], "check": "versioned self-describing resources through the real proxy under concurrent readers/refreshers: pairing of body, length, validators, content type; no replaced version served again (direct)",
+         "timeout": 300, "timeout_thorough": 1200},
     ]
 
 TRUSTED = [
